@@ -1181,7 +1181,9 @@ class NNDescent:
 
             # Reverse graph
             pre_reverse_diversify_nnz = self._search_graph.nnz
-            reverse_graph = self._search_graph.transpose()
+            # a CSR copy: transpose() alone is a CSC view of the same arrays, whose
+            # (indptr, indices) describe the forward rows again
+            reverse_graph = self._search_graph.transpose().tocsr()
             if self._is_sparse:
                 sparse.diversify_csr(
                     reverse_graph.indptr,
